@@ -1,15 +1,28 @@
 // C20 correspondence harness: replays container operation logs on the real Xalan templates
 // (compiled from /repo's working-tree headers, under ASan+UBSan) side by side with the std::
-// containers.  Reply per request line:  "<size> <capacity> : <elements...>"  (+ " !std" when
-// the contents differ from the std:: model — the property evaluated on the implementation).
+// containers.  One reply line per request line; the reply is the canonical dump of the container
+// acted on (same format as lean/Driver/C20.lean) + " !std" when the observable state differs from
+// the std:: reference — the property evaluated on the implementation.  After a " !std" reply every
+// further request of the same sequence is answered "skip" (the two sides have diverged); `reset`
+// starts the next sequence with fresh containers.
 #include <xalanc/Include/PlatformDefinitions.hpp>
 #include <xalanc/Include/XalanVector.hpp>
+#include <xalanc/Include/XalanList.hpp>
+#include <xalanc/Include/XalanMap.hpp>
+#include <xalanc/Include/XalanSet.hpp>
+#include <xalanc/Include/XalanDeque.hpp>
 #include <xalanc/Include/XalanMemoryManagement.hpp>
 #include <xercesc/framework/MemoryManager.hpp>
 
+#include <algorithm>
 #include <cstdio>
 #include <cstdlib>
+#include <deque>
 #include <iostream>
+#include <list>
+#include <map>
+#include <memory>
+#include <set>
 #include <sstream>
 #include <string>
 #include <vector>
@@ -26,8 +39,10 @@ public:
     xercesc::MemoryManager* getExceptionMemoryManager() override { return this; }
 };
 
-static CountingManager g_mm;
+static CountingManager g_mm;      // vectors, maps, sets, deques
+static CountingManager g_mmList;  // lists only: its live count is an observable of the list model
 
+// ------------------------------------------------------------------------------------ vector
 typedef XalanVector<int> XVec;
 
 struct VecPair
@@ -37,7 +52,7 @@ struct VecPair
     VecPair() : x(g_mm) {}
 };
 
-static std::string show(VecPair& p)
+static std::string show(VecPair& p, bool& bad)
 {
     std::ostringstream o;
     o << p.x.size() << " " << p.x.capacity() << " :";
@@ -47,66 +62,494 @@ static std::string show(VecPair& p)
         o << " " << p.x[i];
         if (same && p.x[i] != p.s[i]) same = false;
     }
-    if (!same) o << " !std";
+    if (!same) { o << " !std"; bad = true; }
     return o.str();
 }
 
-int main()
+// ------------------------------------------------------------------------------------ map / set
+struct CKey
+{
+    int v;
+    CKey(int x = 0) : v(x) {}
+    bool operator==(const CKey& o) const { return v == o.v; }
+};
+
+struct CKeyHasher
+{
+    size_t operator()(const CKey& k) const { return size_t(k.v) / 2; }   // collides pairwise, see Driver.C20.khash
+};
+
+namespace XALAN_CPP_NAMESPACE
+{
+template <>
+struct XalanMapKeyTraits<CKey>
+{
+    typedef CKeyHasher              Hasher;
+    typedef std::equal_to<CKey>     Comparator;
+};
+}
+
+typedef XalanMap<CKey, int> XMapBase;
+
+struct XM : public XMapBase   // derived only to read the protected members
+{
+    XM(MemoryManager& mm, double lf, size_t minb, size_t thr) : XMapBase(mm, lf, minb, thr) {}
+    XM(MemoryManager& mm) : XMapBase(mm) {}
+    XM(const XM& o, MemoryManager& mm) : XMapBase(o, mm) {}
+    size_t nb() const { return m_buckets.size(); }
+    size_t nfree() const { return m_freeEntries.size(); }
+    void ptrs(size_t& total, size_t& stale)
+    {
+        total = stale = 0;
+        for (TableIterator b = m_buckets.begin(); b != m_buckets.end(); ++b)
+            for (BucketIterator j = b->begin(); j != b->end(); ++j)
+            {
+                ++total;
+                if ((*j)->erased) ++stale;
+            }
+    }
+};
+
+struct MapPair
+{
+    std::unique_ptr<XM> x;
+    std::vector<std::pair<int, int> > s;   // insertion-ordered association list
+    std::map<int, int> m;                   // and std::map for membership/values
+    MapPair() : x(new XM(g_mm)) {}
+    int* sfind(int k) { for (auto& p : s) if (p.first == k) return &p.second; return 0; }
+};
+
+static std::string show(MapPair& p, const std::string& pre, bool& bad)
+{
+    std::ostringstream o;
+    size_t total, stale;
+    p.x->ptrs(total, stale);
+    o << pre << p.x->size() << " nb=" << p.x->nb() << " ptr=" << total << " stale=" << stale << " free=" << p.x->nfree() << " :";
+    bool same = p.x->size() == p.s.size() && p.s.size() == p.m.size() && p.x->empty() == p.s.empty();
+    size_t i = 0;
+    for (XM::iterator it = p.x->begin(); it != p.x->end(); ++it, ++i)
+    {
+        o << " " << (*it).first.v << "=" << (*it).second;
+        if (same && (i >= p.s.size() || p.s[i].first != (*it).first.v || p.s[i].second != (*it).second)) same = false;
+        if (same) { auto f = p.m.find((*it).first.v); if (f == p.m.end() || f->second != (*it).second) same = false; }
+    }
+    if (i != p.s.size()) same = false;
+    // every key of the reference must be found, with its value, through find()
+    if (same)
+        for (auto& kv : p.s)
+        {
+            XM::iterator f = p.x->find(CKey(kv.first));
+            if (f == p.x->end() || (*f).second != kv.second) { same = false; break; }
+        }
+    if (!same) { o << " !std"; bad = true; }
+    return o.str();
+}
+
+struct SetPair
+{
+    std::unique_ptr<XalanSet<CKey> > x;
+    std::vector<int> s;
+    std::set<int> m;
+    SetPair() : x(new XalanSet<CKey>(g_mm)) {}
+};
+
+static std::string show(SetPair& p, const std::string& pre, bool& bad)
+{
+    std::ostringstream o;
+    o << pre << p.x->size() << " :";
+    bool same = p.x->size() == p.s.size() && p.s.size() == p.m.size();
+    size_t i = 0;
+    for (XalanSet<CKey>::const_iterator it = p.x->begin(); it != p.x->end(); ++it, ++i)
+    {
+        o << " " << (*it).v;
+        if (same && (i >= p.s.size() || p.s[i] != (*it).v || !p.m.count((*it).v))) same = false;
+    }
+    if (i != p.s.size()) same = false;
+    if (same)
+        for (int k : p.s)
+            if (p.x->count(CKey(k)) != 1) { same = false; break; }
+    if (!same) { o << " !std"; bad = true; }
+    return o.str();
+}
+
+// ------------------------------------------------------------------------------------ deque
+typedef XalanDeque<int> XDeq;
+
+struct DeqPair
+{
+    std::unique_ptr<XDeq> x;
+    std::deque<int> s;
+    DeqPair() : x(new XDeq(g_mm, 0, 10)) {}
+};
+
+static std::string show(DeqPair& p, bool& bad)
+{
+    std::ostringstream o;
+    const size_t sz = p.x->size();
+    o << sz << " e=" << (p.x->empty() ? 1 : 0) << " b=";
+    bool same = sz == p.s.size() && p.x->empty() == p.s.empty();
+    if (!p.x->empty()) { o << p.x->back(); if (same && p.x->back() != p.s.back()) same = false; } else o << "-";
+    o << " :";
+    for (size_t i = 0; i < sz; ++i)
+    {
+        o << " " << (*p.x)[i];
+        if (same && (*p.x)[i] != p.s[i]) same = false;
+    }
+    // iterators deliver the same sequence
+    if (same)
+    {
+        size_t i = 0;
+        const XDeq& c = *p.x;
+        for (XDeq::const_iterator it = c.begin(); it != c.end(); ++it, ++i)
+            if (i >= p.s.size() || *it != p.s[i]) { same = false; break; }
+        if (i != p.s.size()) same = false;
+    }
+    if (!same) { o << " !std"; bad = true; }
+    return o.str();
+}
+
+// ------------------------------------------------------------------------------------ list
+typedef XalanList<int> XLst;
+
+struct LstPair
+{
+    std::unique_ptr<XLst> x;
+    std::list<int> s;
+    LstPair() : x(new XLst(g_mmList)) {}
+};
+
+struct Slot
+{
+    std::unique_ptr<XLst::iterator> x;
+    std::list<int>::iterator s;
+};
+
+static std::string show(LstPair& p, const std::string& pre, bool& bad)
+{
+    std::ostringstream o;
+    std::ostringstream fwd, bwd;
+    bool same = true;
+    size_t n = 0;
+    {
+        std::list<int>::iterator si = p.s.begin();
+        for (XLst::iterator it = p.x->begin(); it != p.x->end(); ++it, ++n)
+        {
+            fwd << " " << *it;
+            if (same && (si == p.s.end() || *si != *it)) same = false;
+            if (si != p.s.end()) ++si;
+        }
+        if (n != p.s.size()) same = false;
+        XLst::iterator it = p.x->end();
+        while (it != p.x->begin()) { --it; bwd << " " << *it; }
+    }
+    if (p.x->size() != n || p.x->empty() != (n == 0)) same = false;
+    o << pre << n << " blocks=" << g_mmList.live << " f=";
+    if (n) { o << p.x->front(); if (p.x->front() != p.s.front()) same = false; } else o << "-";
+    o << " b=";
+    if (n) { o << p.x->back(); if (p.x->back() != p.s.back()) same = false; } else o << "-";
+    o << " :" << fwd.str() << " |" << bwd.str();
+    if (!same) { o << " !std"; bad = true; }
+    return o.str();
+}
+
+template <class It> static It adv(It it, long n) { while (n-- > 0) ++it; return it; }
+
+// ------------------------------------------------------------------------------------ main
+struct World
 {
     std::vector<VecPair*> vs;
-    for (int i = 0; i < 4; ++i) vs.push_back(new VecPair);
+    std::vector<MapPair*> ms;
+    std::vector<SetPair*> ss;
+    std::vector<DeqPair*> ds;
+    std::vector<LstPair*> ls;
+    std::vector<Slot> slots;
+    World()
+    {
+        for (int i = 0; i < 4; ++i) vs.push_back(new VecPair);
+        for (int i = 0; i < 4; ++i) ms.push_back(new MapPair);
+        for (int i = 0; i < 2; ++i) ss.push_back(new SetPair);
+        for (int i = 0; i < 4; ++i) ds.push_back(new DeqPair);
+        for (int i = 0; i < 3; ++i) ls.push_back(new LstPair);
+        slots.resize(4);
+    }
+    ~World()
+    {
+        slots.clear();
+        for (auto* p : vs) delete p;
+        for (auto* p : ms) delete p;
+        for (auto* p : ss) delete p;
+        for (auto* p : ds) delete p;
+        for (auto* p : ls) delete p;
+    }
+};
+
+int main()
+{
+    std::unique_ptr<World> w(new World);
+    bool poisoned = false;
+    long leaked = 0;
     std::string line;
     while (std::getline(std::cin, line))
     {
         std::istringstream in(line);
         std::string sub, op;
         in >> sub >> op;
-        if (sub != "vec") { std::cout << "bad\n"; continue; }
-        long a[5] = {0, 0, 0, 0, 0};
-        int n = 0;
-        while (n < 5 && (in >> a[n])) ++n;
-        size_t id = size_t(a[0]);
-        if (id >= vs.size()) { std::cout << "bad\n"; continue; }
-        VecPair& p = *vs[id];
-        if (op == "new") { delete vs[id]; vs[id] = new VecPair; std::cout << show(*vs[id]) << "\n"; continue; }
-        if (op == "newcap")
+        if (sub == "reset")
         {
-            delete vs[id];
-            vs[id] = new VecPair;
-            XVec t(g_mm, size_t(a[1]));
-            vs[id]->x.swap(t);
-            std::cout << show(*vs[id]) << "\n";
+            w.reset();
+            leaked += g_mm.live + g_mmList.live;   // every block must be back once the containers are destroyed
+            g_mm.live = 0; g_mmList.live = 0;
+            w.reset(new World);
+            poisoned = false;
+            std::cout << "ok\n";
             continue;
         }
-        if (op == "push") { p.x.push_back(int(a[1])); p.s.push_back(int(a[1])); }
-        else if (op == "pop") { p.x.pop_back(); p.s.pop_back(); }
-        else if (op == "ins1") { p.x.insert(p.x.begin() + a[1], int(a[2])); p.s.insert(p.s.begin() + a[1], int(a[2])); }
-        else if (op == "insn") { p.x.insert(p.x.begin() + a[1], size_t(a[2]), int(a[3])); p.s.insert(p.s.begin() + a[1], size_t(a[2]), int(a[3])); }
-        else if (op == "insr")
+        if (poisoned) { std::cout << "skip\n"; continue; }
+        long a[6] = {0, 0, 0, 0, 0, 0};
+        int n = 0;
+        while (n < 6 && (in >> a[n])) ++n;
+        bool bad = false;
+        std::string out;
+        if (sub == "vec")
         {
-            VecPair& q = *vs[size_t(a[2])];
-            p.x.insert(p.x.begin() + a[1], q.x.begin() + a[3], q.x.begin() + a[4]);
-            p.s.insert(p.s.begin() + a[1], q.s.begin() + a[3], q.s.begin() + a[4]);
+            size_t id = size_t(a[0]);
+            if (id >= w->vs.size()) { std::cout << "bad\n"; continue; }
+            VecPair& p = *w->vs[id];
+            if (op == "new") { delete w->vs[id]; w->vs[id] = new VecPair; out = show(*w->vs[id], bad); }
+            else if (op == "newcap")
+            {
+                delete w->vs[id];
+                w->vs[id] = new VecPair;
+                XVec t(g_mm, size_t(a[1]));
+                w->vs[id]->x.swap(t);
+                out = show(*w->vs[id], bad);
+            }
+            else
+            {
+                if (op == "push") { p.x.push_back(int(a[1])); p.s.push_back(int(a[1])); }
+                else if (op == "pop") { p.x.pop_back(); p.s.pop_back(); }
+                else if (op == "ins1") { p.x.insert(p.x.begin() + a[1], int(a[2])); p.s.insert(p.s.begin() + a[1], int(a[2])); }
+                else if (op == "insn") { p.x.insert(p.x.begin() + a[1], size_t(a[2]), int(a[3])); p.s.insert(p.s.begin() + a[1], size_t(a[2]), int(a[3])); }
+                else if (op == "insr")
+                {
+                    VecPair& q = *w->vs[size_t(a[2])];
+                    p.x.insert(p.x.begin() + a[1], q.x.begin() + a[3], q.x.begin() + a[4]);
+                    p.s.insert(p.s.begin() + a[1], q.s.begin() + a[3], q.s.begin() + a[4]);
+                }
+                else if (op == "erase") { p.x.erase(p.x.begin() + a[1], p.x.begin() + a[2]); p.s.erase(p.s.begin() + a[1], p.s.begin() + a[2]); }
+                else if (op == "resize") { p.x.resize(size_t(a[1]), int(a[2])); p.s.resize(size_t(a[1]), int(a[2])); }
+                else if (op == "reserve") { p.x.reserve(size_t(a[1])); p.s.reserve(size_t(a[1])); }
+                else if (op == "clear") { p.x.clear(); p.s.clear(); }
+                else if (op == "assign")
+                {
+                    VecPair& q = *w->vs[size_t(a[1])];
+                    p.x.assign(q.x.begin() + a[2], q.x.begin() + a[3]);
+                    p.s.assign(q.s.begin() + a[2], q.s.begin() + a[3]);
+                }
+                else if (op == "copy") { VecPair& q = *w->vs[size_t(a[1])]; p.x = q.x; p.s = q.s; }
+                else if (op == "swap") { VecPair& q = *w->vs[size_t(a[1])]; p.x.swap(q.x); p.s.swap(q.s); }
+                // aliasing forms: the value argument refers to an element of the same vector
+                else if (op == "insself") { p.s.insert(p.s.begin() + a[1], size_t(a[2]), p.s[size_t(a[3])]); p.x.insert(p.x.begin() + a[1], size_t(a[2]), p.x[size_t(a[3])]); }
+                else if (op == "resizeself") { int v = p.s[size_t(a[2])]; p.s.resize(size_t(a[1]), v); p.x.resize(size_t(a[1]), p.x[size_t(a[2])]); }
+                else if (op == "pushself") { p.s.push_back(p.s[size_t(a[1])]); p.x.push_back(p.x[size_t(a[1])]); }
+                else { std::cout << "bad\n"; continue; }
+                out = show(p, bad);
+            }
         }
-        else if (op == "erase") { p.x.erase(p.x.begin() + a[1], p.x.begin() + a[2]); p.s.erase(p.s.begin() + a[1], p.s.begin() + a[2]); }
-        else if (op == "resize") { p.x.resize(size_t(a[1]), int(a[2])); p.s.resize(size_t(a[1]), int(a[2])); }
-        else if (op == "reserve") { p.x.reserve(size_t(a[1])); p.s.reserve(size_t(a[1])); }
-        else if (op == "clear") { p.x.clear(); p.s.clear(); }
-        else if (op == "assign")
+        else if (sub == "map")
         {
-            VecPair& q = *vs[size_t(a[1])];
-            p.x.assign(q.x.begin() + a[2], q.x.begin() + a[3]);
-            p.s.assign(q.s.begin() + a[2], q.s.begin() + a[3]);
+            size_t id = size_t(a[0]);
+            if (id >= w->ms.size()) { std::cout << "bad\n"; continue; }
+            MapPair& p = *w->ms[id];
+            std::string pre;
+            if (op == "new")
+            {
+                p.x.reset(new XM(g_mm, double(a[1]) / double(a[2]), size_t(a[3]), size_t(a[4])));
+                p.s.clear(); p.m.clear();
+            }
+            else if (op == "ins")
+            {
+                p.x->insert(CKey(int(a[1])), int(a[2]));
+                if (!p.sfind(int(a[1]))) p.s.push_back(std::make_pair(int(a[1]), int(a[2])));
+                p.m.insert(std::make_pair(int(a[1]), int(a[2])));
+            }
+            else if (op == "set")
+            {
+                (*p.x)[CKey(int(a[1]))] = int(a[2]);
+                if (int* v = p.sfind(int(a[1]))) *v = int(a[2]); else p.s.push_back(std::make_pair(int(a[1]), int(a[2])));
+                p.m[int(a[1])] = int(a[2]);
+            }
+            else if (op == "find")
+            {
+                const XM& c = *p.x;
+                XM::const_iterator f = c.find(CKey(int(a[1])));
+                std::map<int, int>::iterator sf = p.m.find(int(a[1]));
+                std::ostringstream o;
+                if (f == c.end()) { o << "r=nf "; if (sf != p.m.end()) bad = true; }
+                else { o << "r=" << (*f).second << " "; if (sf == p.m.end() || sf->second != (*f).second || (*f).first.v != int(a[1])) bad = true; }
+                pre = o.str();
+            }
+            else if (op == "erase")
+            {
+                size_t r = p.x->erase(CKey(int(a[1])));
+                size_t sr = p.m.erase(int(a[1]));
+                for (size_t i = 0; i < p.s.size(); ++i) if (p.s[i].first == int(a[1])) { p.s.erase(p.s.begin() + i); break; }
+                std::ostringstream o; o << "r=" << r << " "; pre = o.str();
+                if (r != sr) bad = true;
+            }
+            else if (op == "clear") { p.x->clear(); p.s.clear(); p.m.clear(); }
+            else if (op == "copy")
+            {
+                MapPair& q = *w->ms[size_t(a[1])];
+                static_cast<XMapBase&>(*p.x) = static_cast<const XMapBase&>(*q.x);
+                if (&p != &q) { p.s = q.s; p.m = q.m; }
+            }
+            else if (op == "copyctor")
+            {
+                MapPair& q = *w->ms[size_t(a[1])];
+                std::unique_ptr<XM> t(new XM(*q.x, g_mm));
+                p.x.swap(t);
+                if (&p != &q) { p.s = q.s; p.m = q.m; }
+            }
+            else if (op == "swap")
+            {
+                MapPair& q = *w->ms[size_t(a[1])];
+                if (&p != &q) { p.x->swap(*q.x); p.s.swap(q.s); p.m.swap(q.m); }
+            }
+            else { std::cout << "bad\n"; continue; }
+            bool b2 = false;
+            out = show(p, pre, b2);
+            if (bad && !b2) out += " !std";
+            bad = bad || b2;
         }
-        else if (op == "copy") { VecPair& q = *vs[size_t(a[1])]; p.x = q.x; p.s = q.s; }
-        else if (op == "swap") { VecPair& q = *vs[size_t(a[1])]; p.x.swap(q.x); p.s.swap(q.s); }
-        // aliasing forms: the value argument refers to an element of the same vector
-        else if (op == "insself") { p.s.insert(p.s.begin() + a[1], size_t(a[2]), p.s[size_t(a[3])]); p.x.insert(p.x.begin() + a[1], size_t(a[2]), p.x[size_t(a[3])]); }
-        else if (op == "pushself") { p.s.push_back(p.s[size_t(a[1])]); p.x.push_back(p.x[size_t(a[1])]); }
+        else if (sub == "set")
+        {
+            size_t id = size_t(a[0]);
+            if (id >= w->ss.size()) { std::cout << "bad\n"; continue; }
+            SetPair& p = *w->ss[id];
+            std::string pre;
+            if (op == "new") { p.x.reset(new XalanSet<CKey>(g_mm)); p.s.clear(); p.m.clear(); }
+            else if (op == "ins")
+            {
+                p.x->insert(CKey(int(a[1])));
+                if (p.m.insert(int(a[1])).second) p.s.push_back(int(a[1]));
+            }
+            else if (op == "count")
+            {
+                size_t r = p.x->count(CKey(int(a[1])));
+                std::ostringstream o; o << "r=" << r << " "; pre = o.str();
+                if (r != p.m.count(int(a[1]))) bad = true;
+            }
+            else if (op == "erase")
+            {
+                size_t r = p.x->erase(CKey(int(a[1])));
+                size_t sr = p.m.erase(int(a[1]));
+                p.s.erase(std::remove(p.s.begin(), p.s.end(), int(a[1])), p.s.end());
+                std::ostringstream o; o << "r=" << r << " "; pre = o.str();
+                if (r != sr) bad = true;
+            }
+            else if (op == "clear") { p.x->clear(); p.s.clear(); p.m.clear(); }
+            else if (op == "copyctor")
+            {
+                SetPair& q = *w->ss[size_t(a[1])];
+                std::unique_ptr<XalanSet<CKey> > t(new XalanSet<CKey>(*q.x, g_mm));
+                p.x.swap(t);
+                if (&p != &q) { p.s = q.s; p.m = q.m; }
+            }
+            else { std::cout << "bad\n"; continue; }
+            bool b2 = false;
+            out = show(p, pre, b2);
+            if (bad && !b2) out += " !std";
+            bad = bad || b2;
+        }
+        else if (sub == "deq")
+        {
+            size_t id = size_t(a[0]);
+            if (id >= w->ds.size()) { std::cout << "bad\n"; continue; }
+            DeqPair& p = *w->ds[id];
+            if (op == "new")
+            {
+                p.x.reset(new XDeq(g_mm, size_t(a[2]), size_t(a[1])));
+                p.s.assign(size_t(a[2]), 0);
+            }
+            else if (op == "push") { p.x->push_back(int(a[1])); p.s.push_back(int(a[1])); }
+            else if (op == "pop") { p.x->pop_back(); p.s.pop_back(); }
+            else if (op == "resize") { p.x->resize(size_t(a[1])); p.s.resize(size_t(a[1])); }
+            else if (op == "clear") { p.x->clear(); p.s.clear(); }
+            else if (op == "copy") { DeqPair& q = *w->ds[size_t(a[1])]; *p.x = *q.x; if (&p != &q) p.s = q.s; }
+            else if (op == "copyctor")
+            {
+                DeqPair& q = *w->ds[size_t(a[1])];
+                std::unique_ptr<XDeq> t(new XDeq(*q.x, g_mm));
+                p.x.swap(t);
+                if (&p != &q) p.s = q.s;
+            }
+            else if (op == "swap") { DeqPair& q = *w->ds[size_t(a[1])]; if (&p != &q) { p.x->swap(*q.x); p.s.swap(q.s); } }
+            else { std::cout << "bad\n"; continue; }
+            out = show(p, bad);
+        }
+        else if (sub == "lst")
+        {
+            std::string pre;
+            size_t id = size_t(a[0]);
+            if (op == "save" || op == "deref") id = size_t(a[1]);
+            if (id >= w->ls.size()) { std::cout << "bad\n"; continue; }
+            LstPair& p = *w->ls[id];
+            if (op == "new") { p.x.reset(new XLst(g_mmList)); p.s.clear(); }
+            else if (op == "pushb") { p.x->push_back(int(a[1])); p.s.push_back(int(a[1])); }
+            else if (op == "pushf") { p.x->push_front(int(a[1])); p.s.push_front(int(a[1])); }
+            else if (op == "popb") { p.x->pop_back(); p.s.pop_back(); }
+            else if (op == "popf") { p.x->pop_front(); p.s.pop_front(); }
+            else if (op == "insat")
+            {
+                XLst::iterator r = p.x->insert(adv(p.x->begin(), a[1]), int(a[2]));
+                std::list<int>::iterator sr = p.s.insert(adv(p.s.begin(), a[1]), int(a[2]));
+                if (*r != *sr) bad = true;
+            }
+            else if (op == "eraseat") { p.x->erase(adv(p.x->begin(), a[1])); p.s.erase(adv(p.s.begin(), a[1])); }
+            else if (op == "save")
+            {
+                Slot& sl = w->slots[size_t(a[0])];
+                sl.x.reset(new XLst::iterator(adv(p.x->begin(), a[2])));
+                sl.s = adv(p.s.begin(), a[2]);
+                std::ostringstream o; o << "r=" << **sl.x << " "; pre = o.str();
+                if (**sl.x != *sl.s) bad = true;
+            }
+            else if (op == "deref")
+            {
+                Slot& sl = w->slots[size_t(a[0])];
+                std::ostringstream o; o << "r=" << **sl.x << " "; pre = o.str();
+                if (**sl.x != *sl.s) bad = true;
+            }
+            else if (op == "insit") { Slot& sl = w->slots[size_t(a[1])]; p.x->insert(*sl.x, int(a[2])); p.s.insert(sl.s, int(a[2])); }
+            else if (op == "eraseit") { Slot& sl = w->slots[size_t(a[1])]; p.x->erase(*sl.x); p.s.erase(sl.s); sl.x.reset(); }
+            else if (op == "splice")
+            {
+                LstPair& q = *w->ls[size_t(a[2])];
+                p.x->splice(adv(p.x->begin(), a[1]), *q.x, adv(q.x->begin(), a[3]));
+                p.s.splice(adv(p.s.begin(), a[1]), q.s, adv(q.s.begin(), a[3]));
+            }
+            else if (op == "splicer")
+            {
+                LstPair& q = *w->ls[size_t(a[2])];
+                p.x->splice(adv(p.x->begin(), a[1]), *q.x, adv(q.x->begin(), a[3]), adv(q.x->begin(), a[4]));
+                p.s.splice(adv(p.s.begin(), a[1]), q.s, adv(q.s.begin(), a[3]), adv(q.s.begin(), a[4]));
+            }
+            else if (op == "clear") { p.x->clear(); p.s.clear(); }
+            else if (op == "swap") { LstPair& q = *w->ls[size_t(a[1])]; p.x->swap(*q.x); p.s.swap(q.s); }
+            else if (op == "show") {}
+            else { std::cout << "bad\n"; continue; }
+            bool b2 = false;
+            out = show(p, pre, b2);
+            if (bad && !b2) out += " !std";
+            bad = bad || b2;
+        }
         else { std::cout << "bad\n"; continue; }
-        std::cout << show(p) << "\n";
+        if (bad) poisoned = true;
+        std::cout << out << "\n";
     }
-    for (auto* v : vs) delete v;
-    std::cout << "live " << g_mm.live << "\n";
+    w.reset();
+    leaked += g_mm.live + g_mmList.live;
+    std::cout << "live " << leaked << "\n";
     return 0;
 }
